@@ -1689,10 +1689,14 @@ func TestVerif_C06(t *testing.T) {
 			}
 			c06GateCases(p, thorough, &gateCases, &gateIdx)
 			wgCases, wgIdx, wrCases, wrIdx = c06WindowCases(p, hit)
-			lgCookies, lgCases, lgIdx = c06LoginCases(p, thorough, hit)
+			lgCookies, lgCases, lgIdx = c06LoginCases(p, thorough, false, 0, 0, hit)
 		}
 		if ci == 0 {
 			c06RealTLS(p, hit)
+		}
+		if cfg.name == "B" {
+			ck, cs, ix := c06LoginCases(p, thorough, true, len(lgCookies), len(lgIdx), hit)
+			lgCookies, lgCases, lgIdx = append(lgCookies, ck...), append(lgCases, cs...), append(lgIdx, ix...)
 		}
 		if cfg.okta {
 			// the Okta authenticator only knows users that logged in through it recently
@@ -2893,7 +2897,9 @@ func c06LoginDefect(cred *c06LoginCred, ck *c06LoginCookie, cert *c06Shape, sub 
 	return "extra-level"
 }
 
-func c06LoginCases(p *c06Prober, thorough bool, hit func(verifHit)) (cookieCoq, cases, idx []string) {
+// reduced: another configuration (web UI by password: the HTML answer is a redirect) with the core of the family;
+// ckOff / idxOff: how many cookie states / cases earlier calls have put into the case file
+func c06LoginCases(p *c06Prober, thorough, reduced bool, ckOff, idxOff int, hit func(verifHit)) (cookieCoq, cases, idx []string) {
 	st := p.env.state
 	var route *verifRoute
 	for _, r := range verifRouteTable() {
@@ -2966,6 +2972,16 @@ func c06LoginCases(p *c06Prober, thorough bool, hit func(verifHit)) (cookieCoq, 
 		if set && verifies {
 			if defect := c06LoginDefect(cred, ck, cert, sub, level); defect != "" {
 				user, _, _ := cred.expected()
+				// what the minted cookie is worth at a gate that wants a second factor
+				for _, c := range rr.Result().Cookies() {
+					if c.Name == authCookieName {
+						follow := verifNewRequest("GET", "/probe", nil)
+						follow.AddCookie(authCookie(c.Value))
+						if ai, err := st.checkAuth(httptest.NewRecorder(), follow, AuthTypeU2F|AuthTypeTOTP|AuthTypeSymantecVIP|AuthTypeOkta2FA|AuthTypeFIDO2); err == nil && ai != nil {
+							observed["minted_cookie_passes_second_factor_gate_as"] = ai.Username
+						}
+					}
+				}
 				hit(verifHit{Key: "C06:login-minted-level:" + defect, Oracle: "the session minted by the login route is not (the user whose password was verified, password level only)",
 					What: fmt.Sprintf("%s %s with login credential %s (user %q), attached auth_cookie %s (owner %q, level %d, valid %v), client certificate %s -> Set-Cookie auth_cookie for %q at level %d (password level is %d), status %d",
 						method, route.Path, cred.name, user, ck.name, ck.owner, ck.level, ck.valid, cert.name, sub, level, AuthTypePassword, obs.status),
@@ -2982,17 +2998,32 @@ func c06LoginCases(p *c06Prober, thorough bool, hit func(verifHit)) (cookieCoq, 
 			code = obs.status
 		}
 		hdrCoq, formCoq := cred.coq()
-		cases = append(cases, fmt.Sprintf("LG %d %d %s %s %d %d %d %d %d", si, cki, hdrCoq, formCoq, c06MethN(method), minted, subN, level, code))
-		idx = append(idx, fmt.Sprintf("%d\tlogin %s %s accept=%s cred=%s cookie=%s cert=%s class=%s -> status=%d minted=%d subject=%q level=%d",
-			len(idx), method, route.Path, accept, cred.name, ck.name, cert.name, class, obs.status, minted, sub, level))
+		cases = append(cases, fmt.Sprintf("LG %d %d %s %s %d %d %d %d %d", si, ckOff+cki, hdrCoq, formCoq, c06MethN(method), minted, subN, level, code))
+		idx = append(idx, fmt.Sprintf("%d\tconfig=%s login %s %s accept=%s cred=%s cookie=%s cert=%s class=%s -> status=%d minted=%d subject=%q level=%d",
+			idxOff+len(idx), p.cfgName, method, route.Path, accept, cred.name, ck.name, cert.name, class, obs.status, minted, sub, level))
+	}
+	core := func(ck *c06LoginCookie) bool {
+		return ck.name == "no-cookie" || ck.name == "cookie-alice-password+u2f" || ck.name == "cookie-bob-password+u2f"
+	}
+	if reduced && !thorough {
+		for ci := range c06LoginCreds {
+			for cki := range cookies {
+				if core(&cookies[cki]) {
+					probe(&c06LoginCreds[ci], cki, certs[0], "POST", true)
+					probe(&c06LoginCreds[ci], cki, certs[0], "POST", false)
+				}
+			}
+		}
+		return
 	}
 	for ci := range c06LoginCreds {
 		cred := &c06LoginCreds[ci]
 		for cki := range cookies {
 			ck := &cookies[cki]
 			for k, si := range certs {
-				// quick tier: certificates with {no cookie, a second-factor session of each user}
-				if !thorough && k > 0 && !(cki == 0 || ck.name == "cookie-alice-password+u2f" || ck.name == "cookie-bob-password+u2f") {
+				// quick tier: certificates with {no cookie, a second-factor session of each user}; with every cookie state for
+				// the two plain good logins
+				if !thorough && k > 0 && !(core(ck) || cred.name == "form-bob-good" || cred.name == "basic-bob-good") {
 					continue
 				}
 				for _, method := range []string{"POST", "GET"} {
